@@ -1016,7 +1016,9 @@ fn execute_inner(
                 Ok(Ok(())) => "success",
                 Ok(Err(_)) => "an error",
             };
-            if !content_faults {
+            // Judged only when the command did NOT succeed: what a successful run does to the text (it may, for instance,
+            // lose a comment) is the formatter's own correctness, property C12, not termination under faults.
+            if !content_faults && outcome != "success" {
                 for (p, n) in &before {
                     stats.labels_checked += 1;
                     let after = disk::with(|d| d.files.get(p).map(|b| ink(b))).flatten();
